@@ -28,8 +28,8 @@ Prog_s4 == [t1 |-> <<O("acq", 1, 0), O("acq", 2, 0), O("mva", 1, 2), O("rel", 1,
             t4 |-> <<O("acq", 1, 0), O("rel", 1, 0), O("acq", 1, 0), O("rel", 1, 0)>>]
 
 C(n, p) == [n |-> n, p |-> p]
-CfgsQuick == << C(1, Prog_s1), C(2, Prog_s2), C(3, Prog_s3), C(2, Prog_s1), C(3, Prog_cover) >>
-CfgsThorough == << C(4, Prog_s4), C(3, Prog_s2), C(4, Prog_s3), C(4, Prog_s1) >>
+CfgsQuick == << C(1, Prog_s1), C(2, Prog_s2), C(3, Prog_s3), C(3, Prog_cover) >>
+CfgsThorough == << C(4, Prog_s4), C(3, Prog_s2), C(4, Prog_s3), C(4, Prog_s1), C(2, Prog_s1) >>
 InitQuick == \E i \in 1 .. Len(CfgsQuick) : InitWith(CfgsQuick[i].n, CfgsQuick[i].p)
 InitThorough == \E i \in 1 .. Len(CfgsThorough) : InitWith(CfgsThorough[i].n, CfgsThorough[i].p)
 ==========================================================================
